@@ -831,7 +831,15 @@ def rule_FORWARD(ctx, vis, floor=2):
     r = Rule('C40-FORWARD', 'an expression node whose value is one of its operands (its infer_type() is the spanning type of child types: conditional expression, and/or, '
                             'temp wrappers) hands the overflow context on to those operands: MarkOverflowingArithmetic visits it as neutral, not as safe', floor)
     ix = ctx.index
-    fw = forwarding_classes(ix)
+    from .s4C40 import choice_classes
+    # the classes are found from infer_type() OR from their `self.type = <spanning type of child types>` store (rules/s4C40), so that a rewrite of one of the
+    # two sites does not hide the class from this rule
+    fw = {}
+    for c, info in choice_classes(ix).items():
+        kids = set(info['children'])
+        if not kids:      # infer_type() no longer has the forwarding shape: the operands named by the store site
+            kids = {n.attr for fn, st in info['stores'] for n in ast.walk(fn) if isinstance(n, ast.Attribute) and is_self_attr(n) and n.attr in info['subexprs']}
+        fw[c] = sorted(kids)
     early = constructed_before_marking(ix, vis, list(fw))
     if len(early) < 2:
         raise AnalysisError('only %d operand-forwarding expression classes are constructed before the marking pass' % len(early))
